@@ -1,6 +1,7 @@
 import PGV.Props.C08
 import PGV.Props.C12
 import PGV.Props.C10
+import PGV.Props.Facts.Globals
 
 /-!
 # C11 — concurrent validations do not interfere  (partial)
